@@ -162,6 +162,10 @@ def verify_function(prog, db, q, contract, case=None):
     if fi is None:
         fr.degraded = 'function %s no longer exists' % q
         return fr
+    decs = [ast.unparse(d) for d in fi.node.decorator_list if ast.unparse(d) not in ('staticmethod',)]
+    if decs:        # a decorator replaces the function by something the generator does not interpret (caches, wrappers)
+        fr.degraded = 'function %s is wrapped by decorator(s) %s, which the VC generator does not interpret' % (q, ', '.join(decs))
+        return fr
     ex.cur = fi
     ex.init_case_index = case.get('init', 0)
     if 'assign_shape' in case:
@@ -189,6 +193,21 @@ def verify_function(prog, db, q, contract, case=None):
                     env[p] = None
                 elif cv == 'int':
                     env[p] = fresh_scalar(INT, p)
+                elif cv == 'gen':
+                    from .rng_rules import ST
+                    env[p] = st.alloc(SGen(z3.Const(fresh_name('genstate'), ST)))
+                elif cv == 'real':
+                    env[p] = fresh_scalar(REAL, p)
+                elif cv == 'intlist':
+                    env[p] = make_param(ex, st, TList(INT), p)
+                elif cv == 'arrlist':
+                    env[p] = make_param(ex, st, TList(TArr('float', 2)), p)
+                elif cv == 'notarray':
+                    env[p] = ('opaque', p)
+                elif cv == 'arr1':
+                    env[p] = make_param(ex, st, TArr('float', 1), p)
+                elif cv == 'arr2':
+                    env[p] = make_param(ex, st, TArr('float', 2), p)
                 elif cv == 'pair':
                     env[p] = (fresh_scalar(INT, p + '_lo'), fresh_scalar(INT, p + '_hi'))
                 elif cv == 'triple':
